@@ -124,11 +124,16 @@ def run(module: str, cfg: str | Path, *, workers: int = 1, extra_env: dict | Non
                 raise MachineryError(f"unparsable record line from TLC: {line[:200]}") from None
     m = _RE_STATES.findall(out)
     generated, distinct = (int(m[-1][0]), int(m[-1][1])) if m else (0, 0)
+    if simulate and not m:
+        ms = re.findall(r"The number of states generated: (\d+)", out)
+        generated = int(ms[-1]) if ms else 0   # simulation: states visited along random behaviours (not de-duplicated)
     d = _RE_DEPTH.findall(out)
     violated = _RE_INV.findall(out) + _RE_PROP.findall(out)
     if re.search(r"Error: Postcondition \S+ .* is false", out):
         violated.append("POSTCONDITION")
     ok = "No error has been found" in out
+    if simulate and not violated and "Error:" not in out and "states checked" in out:
+        ok = True   # simulation mode ends without the model-checking banner
     res = TLCResult(module, cfg_path.name, ok, violated, records, generated, distinct, int(d[-1]) if d else 0,
                     wall, out)
     if coverage:
